@@ -25,7 +25,7 @@
    the real code under the property observers: the unchanged code passes, an implementation that has the bug fails.
      "no_inval" "partial_ok" "no_old_recv" "le_old" "no_old_send" "no_clear_req" "eph_in_dosend" "eph_ffwd"
      "no_rerequest" "bal_all_pubs" "no_required" "prefetch_first_hop" "no_unregister" "id_not_carried" "hello_counts"
-     "inval_complete_only" *)
+     "inval_complete_only" "C01b_state" "bal_unlock_on_enter" *)
 EXTENDS Integers, Sequences, FiniteSets, TLC
 
 CONSTANTS
@@ -219,11 +219,13 @@ DropPub(c) == /\ "drop" \in FaultKinds /\ nfaults < MaxFaults
 \* request(prev_id) (zeromq.py:894-908): one request per source; '??' sources have no PUSH socket; a full pipe raises
 \* zmq.Again which only marks the source disconnected (send_push, zeromq.py:616-627)
 ReqMsg(f, c, mid, srcs) == [c |-> c, inc |-> inc[f], mid |-> mid, eph |-> Eph(c), new |-> ~srcs[c[2]].conn, k |-> "req"]
+\* the high-water mark is per PUSH socket: requests still in flight from an earlier incarnation of f do not count
+Pending(f, c, q) == Len(SelectSeq(q[c], LAMBDA m : m.inc = inc[f]))
 Request(f, mid, srcs, q) ==
-  [c \in Conns |-> IF c[1] = f /\ Eph(c) < 2 /\ Len(q[c]) < PushHWM
+  [c \in Conns |-> IF c[1] = f /\ Eph(c) < 2 /\ Pending(f, c, q) < PushHWM
                    THEN Append(q[c], ReqMsg(f, c, mid, srcs)) ELSE q[c]]
 ReqConn(f, srcs, q) ==    \* effect of zmq.Again on sender.conn
-  [i \in 1..Len(srcs) |-> IF Eph(<<f, i>>) < 2 /\ Len(q[<<f, i>>]) >= PushHWM
+  [i \in 1..Len(srcs) |-> IF Eph(<<f, i>>) < 2 /\ Pending(f, <<f, i>>, q) >= PushHWM
                           THEN [srcs[i] EXCEPT !.conn = FALSE] ELSE srcs[i]]
 
 Got(s) == IF ~s.some THEN "none"
@@ -316,11 +318,15 @@ Complete(f, srcs) ==
 REnter(f) ==
   /\ pc[f] = "r_enter"
   /\ LET base == IF mq[f].rs = NoneSt THEN prevId[f] + 1 ELSE mq[f].rs
-     IN rmin' = [rmin EXCEPT ![f] = IF "C01b" \notin Defects /\ rmin[f] > base THEN rmin[f] ELSE base]
+         amnesia == D("C01b") \/ (D("C01b_state") /\ mq[f].rs # NoneSt)
+     IN rmin' = [rmin EXCEPT ![f] = IF ~amnesia /\ rmin[f] > base THEN rmin[f] ELSE base]
   /\ rbal' = [rbal EXCEPT ![f] = 0]
+  /\ rsrc' = IF D("bal_unlock_on_enter") /\ SrcBal[f]      \* mutation: every incomplete source is put back into the poller
+             THEN [rsrc EXCEPT ![f] = [i \in 1..NSrc(f) |-> IF GotAll(rsrc[f][i]) THEN rsrc[f][i] ELSE [rsrc[f][i] EXCEPT !.reg = TRUE]]]
+             ELSE rsrc
   /\ pc' = [pc EXCEPT ![f] = "r_poll0"]
   /\ lbl' = <<"int", f, 0>>
-  /\ UNCHANGED <<minSend, clients, sl, prevId, rsrc, mq, oseq, pubq, subq, reqq, pullq, linkUp, inc, stalled, nfaults,
+  /\ UNCHANGED <<minSend, clients, sl, prevId, mq, oseq, pubq, subq, reqq, pullq, linkUp, inc, stalled, nfaults,
                  gvars>>
 
 \* resume from poll() inside recv_once with messages available
